@@ -2,7 +2,13 @@
 //
 // usage: h_rng_run <kind> <seed> key=value...
 //   kind: ga | de | sr_std | sr_alps | sr_mse | class_std
-//   keys: gen pop layers pcross pmut tour brood
+//         inproc_mep_fixed | inproc_mep_distinct | inproc_mep_random | inproc_ga | inproc_de | inproc_sr
+//   keys: gen pop layers pcross pmut tour brood code runs
+//         sleepgen=<g> sleepms=<ms>   hold the process up for <ms> inside the after_generation callback of generation <g>
+//         sleepeval=<n> sleepms=<ms>  (ga, de) hold it up inside the n-th fitness evaluation, i.e. in the middle of a generation
+//   inproc_*: the same seeded execution is performed several times IN THIS PROCESS (sections "=== <label>"): with the
+//   problem / symbol set built afresh, after unrelated symbols have been created, and on a shared problem object.
+//   There individuals and symbols are printed by NAME (opcodes come from a process-wide counter and legitimately differ).
 // Runs one search with vita::random::seed(seed) and prints a transcript:
 //   D <kind> <lo> <hi> <value>         every random draw (hook H1), long doubles as 20 hex digits
 //   G <gen> ...                        one block per after_generation callback:
@@ -12,16 +18,23 @@
 //   F ...                              final summary
 // No wall-clock field, no address is printed.  The check runs the program twice
 // in separately perturbed processes and compares the transcripts byte by byte.
+#include <chrono>
 #include <cstring>
 #include <map>
+#include <thread>
 
 #include "common.h"
+#include "kernel/gp/src/primitive/factory.h"
 
 using namespace vita;
 
 namespace
 {
 std::string tr_;  // transcript (kept in memory, printed at exit)
+bool by_name(false);          // in-process comparisons: names instead of opcodes / signatures
+long sleep_gen(-1), sleep_eval(-1), sleep_ms(0), eval_count(0);
+void hold_up() { std::this_thread::sleep_for(std::chrono::milliseconds(sleep_ms)); }
+void count_eval() { if (++eval_count == sleep_eval) hold_up(); }
 
 std::string hexld(long double v)
 {
@@ -55,6 +68,7 @@ std::string fit(const fitness_t &f)
 
 template<class T> std::string sig(const T &i)
 {
+  if (by_name) return "-";
   const auto h(i.signature());
   return vv::hex64(h.data[0]) + vv::hex64(h.data[1]);
 }
@@ -62,7 +76,10 @@ template<class T> std::string sig(const T &i)
 template<class T> std::string text(const T &i)
 {
   std::ostringstream ss;
-  i.save(ss);
+  if (by_name)
+    ss << out::dump << i;
+  else
+    i.save(ss);
   std::string s(ss.str());
   for (auto &c : s)
     if (c == '\n') c = ';';
@@ -91,7 +108,11 @@ void dump_generation(const population<T> &pop, const summary<T> &s)
      << " t=" << s.az.terminals(false) << "/" << s.az.terminals(true) << "\n";
   ss << "S";
   for (const auto &sc : s.az)  // ordered by opcode, not by address
-    ss << " " << sc.first->opcode() << ":" << sc.second.counter[0] << ":" << sc.second.counter[1];
+  {
+    if (by_name) ss << " " << sc.first->name();
+    else ss << " " << sc.first->opcode();
+    ss << ":" << sc.second.counter[0] << ":" << sc.second.counter[1];
+  }
   ss << "\n";
   ss << "B " << sig(s.best.solution) << " " << fit(s.best.score.fitness) << " age="
      << s.best.solution.age() << "\n";
@@ -102,6 +123,8 @@ void dump_generation(const population<T> &pop, const summary<T> &s)
       ss << "P " << l << " " << i << " age=" << ind.age() << " " << sig(ind) << " " << text(ind) << "\n";
     }
   tr_ += ss.str();
+  if (static_cast<long>(s.gen) == sleep_gen)
+    hold_up();
 }
 
 template<class T> void dump_final(const summary<T> &s)
@@ -187,6 +210,92 @@ int run_sr(unsigned seed, const char *data, evaluator_id ev)
   dump_final(res);
   return 0;
 }
+void run_ga(unsigned seed)
+{
+  constexpr int N(8);
+  ga_problem prob(N, {0, N});
+  set_env(prob.env);
+  auto f = [](const i_ga &x) -> fitness_t
+  {
+    count_eval();
+    double attacks(0);
+    for (int q(0); q < N - 1; ++q)
+      for (int i(q + 1); i < N; ++i)
+        if (x[i] == x[q] || std::abs(x[i] - x[q]) == i - q)
+          ++attacks;
+    return {-attacks};
+  };
+  random::seed(seed);
+  ga_search<decltype(f)> s(prob, f);
+  s.after_generation([](const population<i_ga> &p, const summary<i_ga> &sm) { dump_generation(p, sm); });
+  random::verif::draw_sink = sink;
+  const auto res(s.run(static_cast<unsigned>(opt("runs", 1))));
+  random::verif::draw_sink = nullptr;
+  dump_final(res);
+}
+
+void run_de(unsigned seed)
+{
+  de_problem prob(5, {-5.12, 5.12});
+  set_env(prob.env);
+  auto f = [](const std::vector<double> &x)
+  {
+    count_eval();
+    double r(10.0 * x.size());
+    for (double xi : x)
+      r += xi * xi - 10.0 * std::cos(2 * 3.141592653589793 * xi);
+    return -r;
+  };
+  random::seed(seed);
+  de_search<decltype(f)> s(prob, f);
+  s.after_generation([](const population<i_de> &p, const summary<i_de> &sm) { dump_generation(p, sm); });
+  random::verif::draw_sink = sink;
+  const auto res(s.run(static_cast<unsigned>(opt("runs", 1))));
+  random::verif::draw_sink = nullptr;
+  dump_final(res);
+}
+
+// --- several executions in one process
+std::unique_ptr<problem> setup_mep()
+{
+  auto prob(std::make_unique<problem>());
+  prob->env.init();
+  symbol_factory factory;
+  for (const char *s : {"REAL", "FADD", "FSUB", "FMUL", "FIFL", "FIFE"})
+    prob->sset.insert(factory.make(s));
+  prob->env.individuals = static_cast<unsigned>(opt("pop", 30));
+  prob->env.generations = static_cast<unsigned>(opt("gen", 6));
+  prob->env.mep.code_length = static_cast<std::size_t>(opt("code", 20));
+  prob->env = std_es<i_mep>::shape(prob->env);
+  return prob;
+}
+
+void run_mep(unsigned seed, test_evaluator_type et, const problem &prob)
+{
+  random::seed(seed);
+  test_evaluator<i_mep> eva(et);
+  evolution<i_mep, std_es> evo(prob, eva);
+  evo.after_generation([](const population<i_mep> &p, const summary<i_mep> &sm) { dump_generation(p, sm); });
+  random::verif::draw_sink = sink;
+  const auto &res(evo.run(1));
+  random::verif::draw_sink = nullptr;
+  dump_final(res);
+}
+
+// what an unrelated part of a program would do between two runs: create symbols
+void unrelated_symbols()
+{
+  symbol_factory factory;
+  std::vector<std::unique_ptr<symbol>> junk;
+  for (const char *s : {"FSIN", "FCOS", "FLN", "FABS", "FMAX"})
+    junk.push_back(factory.make(s));
+  problem other;
+  other.env.init();
+  for (const char *s : {"REAL", "FADD", "FDIV"})
+    other.sset.insert(factory.make(s));
+}
+
+void section(const std::string &label) { tr_ += "=== " + label + "\n"; }
 }  // namespace
 
 int main(int argc, char *argv[])
@@ -203,49 +312,15 @@ int main(int argc, char *argv[])
       kv[a.substr(0, p)] = std::stod(a.substr(p + 1));
   }
   log::reporting_level = log::lOFF;
+  sleep_gen = static_cast<long>(opt("sleepgen", -1));
+  sleep_eval = static_cast<long>(opt("sleepeval", -1));
+  sleep_ms = static_cast<long>(opt("sleepms", 0));
 
   int rc(0);
   if (kind == "ga")
-  {
-    const int N(8);
-    ga_problem prob(N, {0, N});
-    set_env(prob.env);
-    auto f = [](const i_ga &x) -> fitness_t
-    {
-      double attacks(0);
-      for (int q(0); q < N - 1; ++q)
-        for (int i(q + 1); i < N; ++i)
-          if (x[i] == x[q] || std::abs(x[i] - x[q]) == i - q)
-            ++attacks;
-      return {-attacks};
-    };
-    random::seed(seed);
-    ga_search<decltype(f)> s(prob, f);
-    s.after_generation([](const population<i_ga> &p, const summary<i_ga> &sm) { dump_generation(p, sm); });
-    random::verif::draw_sink = sink;
-    const auto res(s.run(static_cast<unsigned>(opt("runs", 1))));
-    random::verif::draw_sink = nullptr;
-    dump_final(res);
-  }
+    run_ga(seed);
   else if (kind == "de")
-  {
-    de_problem prob(5, {-5.12, 5.12});
-    set_env(prob.env);
-    auto f = [](const std::vector<double> &x)
-    {
-      double r(10.0 * x.size());
-      for (double xi : x)
-        r += xi * xi - 10.0 * std::cos(2 * 3.141592653589793 * xi);
-      return -r;
-    };
-    random::seed(seed);
-    de_search<decltype(f)> s(prob, f);
-    s.after_generation([](const population<i_de> &p, const summary<i_de> &sm) { dump_generation(p, sm); });
-    random::verif::draw_sink = sink;
-    const auto res(s.run(static_cast<unsigned>(opt("runs", 1))));
-    random::verif::draw_sink = nullptr;
-    dump_final(res);
-  }
+    run_de(seed);
   else if (kind == "sr_std")
     rc = run_sr<std_es>(seed, sr_data, evaluator_id::undefined);
   else if (kind == "sr_alps")
@@ -258,6 +333,50 @@ int main(int argc, char *argv[])
     rc = run_sr<std_es>(seed, class_data, evaluator_id::undefined);
   else if (kind == "class_alps")
     rc = run_sr<alps_es>(seed, class_data, evaluator_id::gaussian);
+  else if (kind.rfind("inproc_mep_", 0) == 0)
+  {
+    by_name = true;
+    const std::string k(kind.substr(11));
+    const test_evaluator_type et(k == "fixed" ? test_evaluator_type::fixed
+                                 : k == "distinct" ? test_evaluator_type::distinct : test_evaluator_type::random);
+    {
+      const auto prob(setup_mep());
+      section("first execution (problem set up)");
+      run_mep(seed, et, *prob);
+      section("same problem object again");
+      run_mep(seed, et, *prob);
+    }
+    {
+      const auto prob(setup_mep());
+      section("problem set up again");
+      run_mep(seed, et, *prob);
+    }
+    unrelated_symbols();
+    {
+      const auto prob(setup_mep());
+      section("problem set up again after unrelated symbols were created");
+      run_mep(seed, et, *prob);
+    }
+  }
+  else if (kind == "inproc_ga" || kind == "inproc_de" || kind == "inproc_sr" || kind == "inproc_sr_alps")
+  {
+    by_name = true;
+    auto once = [&]
+    {
+      eval_count = 0;
+      if (kind == "inproc_ga") run_ga(seed);
+      else if (kind == "inproc_de") run_de(seed);
+      else if (kind == "inproc_sr") run_sr<std_es>(seed, sr_data, evaluator_id::undefined);
+      else run_sr<alps_es>(seed, sr_data, evaluator_id::undefined);
+    };
+    section("first execution (problem set up)");
+    once();
+    section("problem set up again");
+    once();
+    unrelated_symbols();
+    section("problem set up again after unrelated symbols were created");
+    once();
+  }
   else
     return 2;
 
